@@ -2,6 +2,7 @@
 // function over the recorded reads and the other transaction's written keys; mark_range normalisation (C07)
 #![allow(unused_imports, unused_variables, dead_code, unused_mut, unused_parens, unreachable_code, unused_assignments)]
 use vstd::prelude::*;
+use std::cmp::Ordering;
 verus! {
 //@include prelude/core.rs
 //@include prelude/fjall_types.rs
@@ -9,6 +10,7 @@ verus! {
 //@path core::ops::Bound => Bound
 //@world self.push_read
 //@range-shim
+//@broadcast lemma_lex_irrefl
 
 // ---- byte-string order (lsm_tree::Slice: Ord is the lexicographic order of the bytes)
 pub open spec fn lex_lt(a: Seq<u8>, b: Seq<u8>) -> bool decreases a.len() {
@@ -20,6 +22,13 @@ impl vstd::std_specs::cmp::PartialEqSpecImpl for Slice {
     open spec fn eq_spec(&self, other: &Slice) -> bool { self@ == other@ }
 }
 impl PartialEq for Slice { #[verifier::external_body] fn eq(&self, other: &Slice) -> (r: bool) { unimplemented!() } }
+impl vstd::std_specs::cmp::PartialOrdSpecImpl for Slice {
+    open spec fn obeys_partial_cmp_spec() -> bool { true }
+    open spec fn partial_cmp_spec(&self, other: &Slice) -> Option<Ordering> {
+        if self@ == other@ { Some(Ordering::Equal) } else if lex_lt(self@, other@) { Some(Ordering::Less) } else { Some(Ordering::Greater) }
+    }
+}
+impl PartialOrd for Slice { #[verifier::external_body] fn partial_cmp(&self, other: &Slice) -> (r: Option<Ordering>) { unimplemented!() } }
 
 // ---- core::ops::Bound (declared here so that its variants are plain data)
 pub enum Bound<T> { Included(T), Excluded(T), Unbounded }
@@ -151,6 +160,70 @@ impl<'a, T> LockResult<'a, T> { pub fn expect(self, m: &str) -> (r: MutexGuard<'
 impl<'a, T> std::ops::Deref for MutexGuard<'a, T> { type Target = T; fn deref(&self) -> (r: &T) ensures *r == *self.t { self.t } }
 
 //@extract-type src/tx/optimistic/conflict_manager.rs :: ConflictManager
+
+// ---- recording side: ghost log of what push_read is asked to record (push_read itself, 6 lines of Mutex<BTreeMap> plumbing, is NOT under contract)
+pub struct World { pub pushed: Seq<(u64, ReadV)> }
+impl ConflictManager {
+    #[verifier::external_body]
+    pub fn push_read(&self, keyspace_id: InternalKeyspaceId, read: Read, Tracked(w): Tracked<&mut World>)
+        ensures final(w).pushed == old(w).pushed.push((keyspace_id, rv(read))),
+    { unimplemented!() }
+}
+// std::ops::RangeBounds<Slice>
+pub trait RangeBounds<T> { spec fn lo(&self) -> BoundV; spec fn hi(&self) -> BoundV;
+    fn start_bound(&self) -> (r: Bound<&Slice>) ensures bvr(r) == self.lo();
+    fn end_bound(&self) -> (r: Bound<&Slice>) ensures bvr(r) == self.hi();
+}
+/// a range that can contain no key at all (inverted, or empty with an excluded end)
+pub open spec fn void_range(lo: BoundV, hi: BoundV) -> bool { !range_ok(lo, hi) }
+pub proof fn lemma_void_range_covers_nothing(lo: BoundV, hi: BoundV, k: Seq<u8>)
+    requires void_range(lo, hi),
+    ensures !covers(ReadV::Range { start: lo, end: hi }, k), // [C07:void-range-covers-no-key]
+{
+    match (lo, hi) {
+        (BoundV::Excluded(s), BoundV::Excluded(e)) => { if lex_lt(s, k) && lex_lt(k, e) { lemma_lex_trans(s, k, e); } }
+        (BoundV::Included(s), BoundV::Included(e)) => { if lex_le(s, k) && lex_le(k, e) { lemma_lex_le_trans(s, k, e); } }
+        (BoundV::Included(s), BoundV::Excluded(e)) => { if lex_le(s, k) && lex_lt(k, e) { lemma_lex_le_trans(s, k, e); } }
+        (BoundV::Excluded(s), BoundV::Included(e)) => { if lex_lt(s, k) && lex_le(k, e) { lemma_lex_le_trans(s, k, e); } }
+        _ => {}
+    }
+}
+pub proof fn lemma_lex_trans(a: Seq<u8>, b: Seq<u8>, c: Seq<u8>)
+    requires lex_lt(a, b), lex_lt(b, c),
+    ensures lex_lt(a, c),
+    decreases a.len(),
+{
+    if a.len() > 0 && b.len() > 0 && c.len() > 0 && a[0] == b[0] && b[0] == c[0] { lemma_lex_trans(a.drop_first(), b.drop_first(), c.drop_first()); }
+}
+pub broadcast proof fn lemma_lex_irrefl(a: Seq<u8>)
+    ensures !(#[trigger] lex_lt(a, a)),
+    decreases a.len(),
+{
+    if a.len() > 0 { lemma_lex_irrefl(a.drop_first()); }
+}
+pub proof fn lemma_lex_le_trans(a: Seq<u8>, b: Seq<u8>, c: Seq<u8>)
+    requires lex_le(a, b), lex_le(b, c),
+    ensures lex_le(a, c),
+{
+    if a != b && b != c { lemma_lex_trans(a, b, c); }
+}
+
+//@extract src/tx/optimistic/conflict_manager.rs :: ConflictManager :: mark_read world props=C07
+//@contract
+    ensures final(w).pushed == old(w).pushed.push((keyspace_id, ReadV::Single(key@))), // [C07:S1-point-read-recorded-as-single]
+//@end
+
+//@extract src/tx/optimistic/conflict_manager.rs :: ConflictManager :: mark_range world props=C07
+//@contract
+    ensures
+        // a range read is recorded with exactly its bounds (both ends open: the whole keyspace) ...
+        !void_range(range.lo(), range.hi()) ==> final(w).pushed == old(w).pushed.push((keyspace_id,
+            if range.lo() is Unbounded && range.hi() is Unbounded { ReadV::All } else { ReadV::Range { start: range.lo(), end: range.hi() } })), // [C07:S1-range-read-recorded-with-its-bounds]
+        // ... unless it can contain no key at all (nothing observed, nothing to validate)
+        void_range(range.lo(), range.hi()) ==> final(w).pushed == old(w).pushed, // [C07:void-range-records-nothing]
+        // whatever is recorded is well formed: has_conflict's precondition (no both-open Range; BTreeSet::range cannot panic) (D15)
+        forall|i: int| old(w).pushed.len() <= i < final(w).pushed.len() ==> read_wf(#[trigger] final(w).pushed[i].1), // [C07:recorded-reads-are-well-formed]
+//@end
 
 // ---- PROVED facts connecting the collection shims to the spec predicates
 pub proof fn lemma_lookup_some(m: BTreeMap<u64, BTreeSet<Slice>>, b: int)
